@@ -483,6 +483,52 @@ func errNilGuard(desc string, names ...string) Guard {
 	}}
 }
 
+
+// guardMatch applies g.Match to base and, for comparisons, to the logically
+// equivalent spellings of the same test (operands swapped, operator negated),
+// so that a guard written for "a < b" also recognises "b > a", "!(a >= b)" and
+// an if/else whose branches were swapped around "a >= b". flip reports that the
+// matched spelling has the opposite truth value of base.
+func guardMatch(g Guard, base ssa.Value) (matched, flip bool) {
+	if g.Match(base) {
+		return true, false
+	}
+	bo, ok := base.(*ssa.BinOp)
+	if !ok {
+		return false, false
+	}
+	swap := map[token.Token]token.Token{token.LSS: token.GTR, token.GTR: token.LSS, token.LEQ: token.GEQ, token.GEQ: token.LEQ, token.EQL: token.EQL, token.NEQ: token.NEQ}
+	neg := map[token.Token]token.Token{token.LSS: token.GEQ, token.GEQ: token.LSS, token.GTR: token.LEQ, token.LEQ: token.GTR, token.EQL: token.NEQ, token.NEQ: token.EQL}
+	if _, isCmp := swap[bo.Op]; !isCmp {
+		return false, false
+	}
+	type variant struct {
+		op   token.Token
+		x, y ssa.Value
+		flip bool
+	}
+	vs := []variant{
+		{swap[bo.Op], bo.Y, bo.X, false},
+		{neg[bo.Op], bo.X, bo.Y, true},
+		{swap[neg[bo.Op]], bo.Y, bo.X, true},
+	}
+	try := func(clone *ssa.BinOp) (ok bool) {
+		// the clone has no type or position: a matcher that asks for them is not about comparisons
+		defer func() {
+			if recover() != nil {
+				ok = false
+			}
+		}()
+		return g.Match(clone)
+	}
+	for _, v := range vs {
+		if try(&ssa.BinOp{Op: v.op, X: v.x, Y: v.y}) {
+			return true, v.flip
+		}
+	}
+	return false, false
+}
+
 type phiVal struct {
 	kind  int8 // 0 unknown, 1 const, 2 guard
 	b     bool // const value, or: phi truthy == guard-base truthy
@@ -511,8 +557,8 @@ func guardEdges(cond ssa.Value, env map[*ssa.Phi]phiVal, guards []Guard) (allowT
 				at, af := t, !t
 				// the phi itself may be the guarded quantity: a feasible edge that passes the guard is still barred
 				for _, g := range guards {
-					if g.Match(base) {
-						if g.Truthy == pos {
+					if m, flip := guardMatch(g, base); m {
+						if g.Truthy == (pos != flip) {
 							at = false
 						} else {
 							af = false
@@ -536,9 +582,9 @@ func guardEdges(cond ssa.Value, env map[*ssa.Phi]phiVal, guards []Guard) (allowT
 		}
 	}
 	for _, g := range guards {
-		if g.Match(base) {
-			// true edge taken iff base truthy == pos; passed iff base truthy == g.Truthy
-			passEdgeTrue := g.Truthy == pos
+		if m, flip := guardMatch(g, base); m {
+			// true edge taken iff base truthy == pos; passed iff (matched spelling) truthy == g.Truthy
+			passEdgeTrue := g.Truthy == (pos != flip)
 			if passEdgeTrue {
 				return false, true
 			}
@@ -574,8 +620,8 @@ func phiValue(op ssa.Value, guards []Guard, env map[*ssa.Phi]phiVal) phiVal {
 		}
 	}
 	for i, g := range guards {
-		if g.Match(base) {
-			return phiVal{kind: 2, b: pos, guard: i}
+		if m, flip := guardMatch(g, base); m {
+			return phiVal{kind: 2, b: pos != flip, guard: i}
 		}
 	}
 	return phiVal{}
@@ -698,6 +744,18 @@ func (c *Ctx) RequireGuards(r *Report, rule, construct string, fn *ssa.Function,
 		} else {
 			r.Bad(rule, cons, fmt.Sprintf("%s at %s is reachable without passing [%s]", descInstr(instr), c.Pos(instr.Pos()), g.Name), c.pathString(path)...)
 		}
+	}
+}
+
+// RequireAny checks that instr is reachable from entry only across an edge
+// that passes at least one guard of the set (alternative spellings of one condition).
+func (c *Ctx) RequireAny(r *Report, rule, construct string, fn *ssa.Function, instr ssa.Instruction, name string, guards []Guard) {
+	path := ReachAvoiding(fn, nil, instr.Block(), guards)
+	cons := construct + " / guard " + name
+	if path == nil {
+		r.OK(rule, cons, fmt.Sprintf("%s at %s is reachable only across [%s]", descInstr(instr), c.Pos(instr.Pos()), name))
+	} else {
+		r.Bad(rule, cons, fmt.Sprintf("%s at %s is reachable without passing [%s]", descInstr(instr), c.Pos(instr.Pos()), name), c.pathString(path)...)
 	}
 }
 
@@ -1481,6 +1539,71 @@ func cmpGuards(name string, isX func(ssa.Value) bool, pred func(int64) bool, pro
 				any = true
 				if !pred(x) {
 					return false
+				}
+			}
+			return any
+		}}
+	}
+	return []Guard{mk(true), mk(false)}
+}
+
+// relGuards returns guards that are passed exactly on those edges of a
+// comparison between two recognised quantities a and b (either operand order,
+// any of < <= > >= == !=) that imply pred(a, b). pred must be an order
+// relation between the two (decided on all pairs of a small sample).
+func relGuards(name string, isA, isB func(ssa.Value) bool, pred func(a, b int64) bool) []Guard {
+	holds := func(op token.Token, x, y int64) bool {
+		switch op {
+		case token.LSS:
+			return x < y
+		case token.LEQ:
+			return x <= y
+		case token.GTR:
+			return x > y
+		case token.GEQ:
+			return x >= y
+		case token.EQL:
+			return x == y
+		case token.NEQ:
+			return x != y
+		}
+		return false
+	}
+	mk := func(truthy bool) Guard {
+		return Guard{Name: name, Truthy: truthy, Match: func(v ssa.Value) bool {
+			bo, ok := v.(*ssa.BinOp)
+			if !ok {
+				return false
+			}
+			switch bo.Op {
+			case token.LSS, token.LEQ, token.GTR, token.GEQ, token.EQL, token.NEQ:
+			default:
+				return false
+			}
+			aLeft := false
+			switch {
+			case isA(bo.X) && isB(bo.Y):
+				aLeft = true
+			case isB(bo.X) && isA(bo.Y):
+			default:
+				return false
+			}
+			any := false
+			for a := int64(0); a <= 3; a++ {
+				for b := int64(0); b <= 3; b++ {
+					var taken bool
+					if aLeft {
+						taken = holds(bo.Op, a, b)
+					} else {
+						taken = holds(bo.Op, b, a)
+					}
+					if taken != truthy {
+						continue
+					}
+					any = true
+					if !pred(a, b) {
+						return false
+					}
 				}
 			}
 			return any
